@@ -55,6 +55,7 @@ global size_of CASChunkSequenceEntry == 48;
 
 //@ include prelude/setops_actions.rs
 //@ include prelude/setopstream_io.rs
+//@ include prelude/setops_merge.rs
 
 // the two decision functions, with the contracts U-SETOPS proves for the real code
 #[verifier::external_body]
@@ -160,13 +161,50 @@ proof fn lemma_consts()
     assert(1u32 << 30 == 0x4000_0000u32) by (bit_vector);
 }
 
+// ================= content: WHICH block headers are written (C10 "neither lose nor invent records", header level) ==========
+// side i of the file merge: lists unchanged, CAS part untouched, `cur` is the header loaded last (None after the bookend)
+spec fn rd_f(r: VxReader, files: Seq<FileDataSequenceHeader>, cas: Seq<CASChunkSequenceHeader>, cur: Option<FileDataSequenceHeader>) -> bool {
+    &&& reader_wf(r) && r.files@ == files && r.cas@ == cas && r.ci@ == 0
+    &&& cur is Some ==> r.fi@ >= 1 && cur->0 == files[r.fi@ - 1]
+    &&& cur is None ==> r.fi@ == files.len()
+}
+// what side i still has to contribute: from the loaded header on
+spec fn rem_f(r: VxReader, cur: Option<FileDataSequenceHeader>) -> Seq<FileDataSequenceHeader> {
+    if cur is Some { r.files@.subrange(r.fi@ - 1, r.files@.len() as int) } else { Seq::empty() }
+}
+spec fn rd_c(r: VxReader, files: Seq<FileDataSequenceHeader>, cas: Seq<CASChunkSequenceHeader>, cur: Option<CASChunkSequenceHeader>) -> bool {
+    &&& reader_wf(r) && r.files@ == files && r.cas@ == cas && r.fi@ == files.len()
+    &&& cur is Some ==> r.ci@ >= 1 && cur->0 == cas[r.ci@ - 1]
+    &&& cur is None ==> r.ci@ == cas.len()
+}
+spec fn rem_c(r: VxReader, cur: Option<CASChunkSequenceHeader>) -> Seq<CASChunkSequenceHeader> {
+    if cur is Some { r.cas@.subrange(r.ci@ - 1, r.cas@.len() as int) } else { Seq::empty() }
+}
+// the two halves of one merge step (what slot 0 / slot 1 of the action pair emits, and what is left of each side afterwards)
+spec fn f_e0(x: NextAction, a: Seq<FileDataSequenceHeader>, b: Seq<FileDataSequenceHeader>) -> Seq<FileDataSequenceHeader> { if x is Merge { seq![merged_header(a[0], b[0])] } else { emit(x, hd(a)) } }
+spec fn f_e1(x: NextAction, y: NextAction, b: Seq<FileDataSequenceHeader>) -> Seq<FileDataSequenceHeader> { if x is Merge { Seq::empty() } else { emit(y, hd(b)) } }
+spec fn f_n0(x: NextAction, a: Seq<FileDataSequenceHeader>) -> Seq<FileDataSequenceHeader> { if x is Merge { a.drop_first() } else { rest(x, a) } }
+spec fn f_n1(x: NextAction, y: NextAction, b: Seq<FileDataSequenceHeader>) -> Seq<FileDataSequenceHeader> { if x is Merge { b.drop_first() } else { rest(y, b) } }
+proof fn lemma_merged_flags(a: u32, b: u32, hv: bool, he: bool, flags: u32)
+    requires hv == ((a & 0x8000_0000u32 != 0) || (b & 0x8000_0000u32 != 0)), he == ((a & 0x4000_0000u32 != 0) || (b & 0x4000_0000u32 != 0)),
+        flags == (0u32 | (if hv { 0x8000_0000u32 } else { 0u32 })) | (if he { 0x4000_0000u32 } else { 0u32 }),
+    ensures flags == (a | b) & 0xC000_0000u32,
+{
+    let v: u32 = 0x8000_0000; let m: u32 = 0x4000_0000;
+    let hvv = if hv { v } else { 0u32 }; let hmm = if he { m } else { 0u32 };
+    assert(hvv == (a | b) & v) by (bit_vector) requires v == 0x8000_0000u32, hvv == (if (a & v != 0) || (b & v != 0) { v } else { 0u32 });
+    assert(hmm == (a | b) & m) by (bit_vector) requires m == 0x4000_0000u32, hmm == (if (a & m != 0) || (b & m != 0) { m } else { 0u32 });
+    assert((0u32 | hvv) | hmm == (a | b) & 0xC000_0000u32) by (bit_vector) requires hvv == (a | b) & 0x8000_0000u32, hmm == (a | b) & 0x4000_0000u32;
+}
+
 //@ extract mdb_shard/src/set_operations.rs fn set_operation
 //@ ret res
-//@ rules R9q R4k R4b R4u
+//@ rules R9q R17 R4k R4b R4u
 //@ prefix
 #[verifier::exec_allows_no_decreases_clause]
 //@ subst `fn set_operation<R: Read + Seek, W: Write>(` => `fn set_operation(` :: R11 reader/writer stubs instead of the generic parameters
-//@ subst `r: [&mut R; 2]` => `r: [&VxReader; 2]` :: R11 stateless reader stub (reads return arbitrary values)
+//@ subst `r: [&mut R; 2]` => `r: [&mut VxReader; 2]` :: R11 reader stub with ghost header lists
+//@ subst `_r: &mut R` => `_r: &mut VxReader` :: R11 reader stub (parameter type of the inlined load_next closures)
 //@ subst `out: &mut W` => `out: &mut VxWriter` :: R11 writer stub with ghost record log
 //@ subst `chunk_lookup_data.sort_unstable_by_key(|t| t.0)` => `vx_sort_chunk_lookup(&mut chunk_lookup_data)` :: R7 outline of the closure-keyed sort (length preserved)
 //@ contract
@@ -174,13 +212,23 @@ proof fn lemma_consts()
         // environment: the writer accepts fewer than 2^32 records for this call (output < 200 GB); keeps the u32 record
         // indices of the lookup tables and the u64 offsets exact
         old(out).limit@ <= old(out).log@.len() + 0xFFFF_FFFF,
+        // both readers are at the start of well-formed shards (no header handed out yet)
+        setop_pre(*s[0], *old(r[0]), *s[1], *old(r[1])),
     ensures
         res matches Ok(info) ==> /*@C10*/ output_ok(final(out).log@, old(out).log@, info.metadata),
+        // the block headers written to the two sections are exactly the merge of the operands' header lists: union / difference as
+        // specified over what the operands HOLD (U-SETOPS' tables drive the merge), nothing lost, nothing invented
+        res is Ok ==> /*@C10*/ setop_content(old(r[0]).files@, old(r[1]).files@, old(r[0]).cas@, old(r[1]).cas@, op, old(out).fhdrs@, final(out).fhdrs@, old(out).chdrs@, final(out).chdrs@),
 //@ body-start
     let ghost b0 = out.log@.len() as int; let ghost log0 = out.log@; let ghost lim = out.limit@ as int;
     let ghost mut nf: int = 0; let ghost mut nc: int = 0; let ghost mut t1: int = 0;
+    let ghost fa0 = r[0].files@; let ghost fa1 = r[1].files@; let ghost ca0 = r[0].cas@; let ghost ca1 = r[1].cas@; let ghost fh_init = out.fhdrs@; let ghost ch_init = out.chdrs@;
     broadcast use vstd::layout::layout_of_primitives;
     proof { lemma_consts(); }
+//@ before `while let Some(action) =` #1
+        proof {
+            assert(rem_f(*r[0], file_data_header[0]) =~= fa0); assert(rem_f(*r[1], file_data_header[1]) =~= fa1);
+        }
 //@ loop 1
             invariant
                 b0 == log0.len(), out.limit@ == lim, lim <= b0 + 0xFFFF_FFFF, out.log@.len() <= lim,
@@ -189,6 +237,16 @@ proof fn lemma_consts()
                 footer.file_info_offset == 48, file_lookup_data@.len() <= u(current_index),
                 footer.materialized_bytes <= 0xFFFF_FFFF * u(current_index), footer.stored_bytes == 0, footer.stored_bytes_on_disk == 0,
                 opt_small(file_data_header[0]), opt_small(file_data_header[1]),
+                rd_f(*r[0], fa0, ca0, file_data_header[0]), rd_f(*r[1], fa1, ca1, file_data_header[1]), out.chdrs@ == ch_init,
+                /*@C10*/ out.fhdrs@ + merge_files(rem_f(*r[0], file_data_header[0]), rem_f(*r[1], file_data_header[1]), op) =~= fh_init + merge_files(fa0, fa1, op),
+            ensures file_data_header[0] is None && file_data_header[1] is None,
+//@ before `let vx_arr1 = [0, 1];`
+            let ghost f0 = out.fhdrs@; let ghost sa = rem_f(*r[0], file_data_header[0]); let ghost sb = rem_f(*r[1], file_data_header[1]); let ghost ax = action[0]; let ghost ay = action[1];
+            proof {
+                assert(hd(sa) == file_data_header[0] && hd(sb) == file_data_header[1]);
+                lemma_merge_files_step(sa, sb, op);
+                assert(file_table(hd(sa), hd(sb), op) == Some((ax, ay)));
+            }
 //@ loop 2
                 invariant
                     b0 == log0.len(), out.limit@ == lim, lim <= b0 + 0xFFFF_FFFF, out.log@.len() <= lim,
@@ -200,32 +258,73 @@ proof fn lemma_consts()
                     vx_arr1[0] == 0 && vx_arr1[1] == 1, vx_n4 <= 2,
                     vx_n4 == 0 ==> acts_ok(action, file_data_header[0], file_data_header[1]),
                     vx_n4 <= 1 ==> slot_ok(action[1], file_data_header[1]) && !(action[1] is Merge),
+                    rd_f(*r[0], fa0, ca0, file_data_header[0]), rd_f(*r[1], fa1, ca1, file_data_header[1]), out.chdrs@ == ch_init,
+                    ax == action[0], ay == action[1], file_table(hd(sa), hd(sb), op) == Some((ax, ay)), ax is Merge ==> sa.len() > 0 && sb.len() > 0,
+                    /*@C10*/ out.fhdrs@ =~= f0 + (if vx_n4 >= 1 { f_e0(ax, sa, sb) } else { Seq::empty() }) + (if vx_n4 >= 2 { f_e1(ax, ay, sb) } else { Seq::empty() }),
+                    rem_f(*r[0], file_data_header[0]) =~= (if vx_n4 >= 1 { f_n0(ax, sa) } else { sa }),
+                    rem_f(*r[1], file_data_header[1]) =~= (if vx_n4 >= 2 || (vx_n4 >= 1 && ax is Merge) { f_n1(ax, ay, sb) } else { sb }),
+                    f0 + f_e0(ax, sa, sb) + f_e1(ax, ay, sb) + merge_files(f_n0(ax, sa), f_n1(ax, ay, sb), op) =~= fh_init + merge_files(fa0, fa1, op),
                 decreases 2 - vx_n4,
+//@ before `match action[i] {` #1
+                let ghost fcur = out.fhdrs@; let ghost fi_0 = r[0].fi@; let ghost fi_1 = r[1].fi@; let ghost n_0 = fa0.len() as int; let ghost n_1 = fa1.len() as int;
+//@ after `vx_load_next_r })?;` #1
+                        proof {
+                            if i == 0 { assert(rem_f(*r[0], file_data_header[0]) =~= fa0.subrange(fi_0 - 1, n_0).drop_first()); }
+                            else { assert(rem_f(*r[1], file_data_header[1]) =~= fa1.subrange(fi_1 - 1, n_1).drop_first()); }
+                        }
+//@ after `vx_load_next_r })?;` #2
+                        proof {
+                            if i == 0 { assert(rem_f(*r[0], file_data_header[0]) =~= fa0.subrange(fi_0 - 1, n_0).drop_first()); }
+                            else { assert(rem_f(*r[1], file_data_header[1]) =~= fa1.subrange(fi_1 - 1, n_1).drop_first()); }
+                        }
+//@ after `vx_load_next_r })?;` #4
+                        proof {
+                            assert(rem_f(*r[0], file_data_header[0]) =~= fa0.subrange(fi_0 - 1, n_0).drop_first());
+                            assert(rem_f(*r[1], file_data_header[1]) =~= fa1.subrange(fi_1 - 1, n_1).drop_first());
+                        }
 //@ loop 3
                             invariant
                                 b0 == log0.len(), out.limit@ == lim, lim <= b0 + 0xFFFF_FFFF, out.log@.len() <= lim,
                                 file_part(out.log@, log0, b0, u(current_index) + 1 + vx_it1), out.log@.len() == b0 + 1 + u(current_index) + 1 + vx_it1,
                                 footer.materialized_bytes <= 0xFFFF_FFFF * (u(current_index) + vx_it1), i < 2,
                                 footer.file_info_offset == 48, footer.stored_bytes == 0, footer.stored_bytes_on_disk == 0,
+                                rd_f(*r[0], fa0, ca0, file_data_header[0]), rd_f(*r[1], fa1, ca1, file_data_header[1]), out.chdrs@ == ch_init, out.fhdrs@ == fcur.push(*fh), r[0].fi@ == fi_0, r[1].fi@ == fi_1,
 //@ loop 4
                                 invariant
                                     b0 == log0.len(), out.limit@ == lim, lim <= b0 + 0xFFFF_FFFF, out.log@.len() <= lim,
                                     file_part(out.log@, log0, b0, u(current_index) + 1 + fh.num_entries + vx_it2), out.log@.len() == b0 + 1 + u(current_index) + 1 + fh.num_entries + vx_it2, i < 2,
+                                    rd_f(*r[0], fa0, ca0, file_data_header[0]), rd_f(*r[1], fa1, ca1, file_data_header[1]), out.chdrs@ == ch_init, out.fhdrs@ == fcur.push(*fh), r[0].fi@ == fi_0, r[1].fi@ == fi_1,
 //@ loop 5
                             invariant
                                 b0 == log0.len(), out.limit@ == lim, lim <= b0 + 0xFFFF_FFFF, out.log@.len() <= lim,
                                 file_part(out.log@, log0, b0, u(current_index) + 1 + vx_it3), out.log@.len() == b0 + 1 + u(current_index) + 1 + vx_it3,
                                 footer.materialized_bytes <= 0xFFFF_FFFF * (u(current_index) + vx_it3),
                                 footer.file_info_offset == 48, footer.stored_bytes == 0, footer.stored_bytes_on_disk == 0,
+                                rd_f(*r[0], fa0, ca0, file_data_header[0]), rd_f(*r[1], fa1, ca1, file_data_header[1]), out.chdrs@ == ch_init, out.fhdrs@ == fcur.push(header), r[0].fi@ == fi_0, r[1].fi@ == fi_1,
 //@ loop 6
                                 invariant
                                     b0 == log0.len(), out.limit@ == lim, lim <= b0 + 0xFFFF_FFFF, out.log@.len() <= lim,
                                     file_part(out.log@, log0, b0, u(current_index) + 1 + fh0.num_entries + vx_it4), out.log@.len() == b0 + 1 + u(current_index) + 1 + fh0.num_entries + vx_it4,
                                     /*@C10*/ out_offset == 48 * (out.log@.len() - b0), read_idx < 2,
+                                    rd_f(*r[0], fa0, ca0, file_data_header[0]), rd_f(*r[1], fa1, ca1, file_data_header[1]), out.chdrs@ == ch_init, out.fhdrs@ == fcur.push(header), r[0].fi@ == fi_0, r[1].fi@ == fi_1,
 //@ before `out_offset += header.serialize(out)? as u64;` #2
-                        proof { lemma_consts(); lemma_flag_bits(has_verification, has_metadata_ext, header.file_flags); }
+                        proof {
+                            lemma_consts(); lemma_flag_bits(has_verification, has_metadata_ext, header.file_flags);
+                            lemma_merged_flags(fh0.file_flags, fh1.file_flags, has_verification, has_metadata_ext, header.file_flags);
+                            assert(header == merged_header(*fh0, *fh1));
+                        }
+//@ before `out_offset += FileDataSequenceHeader::bookend().serialize(out)? as u64;`
+        proof {
+            assert(file_data_header[0] is None && file_data_header[1] is None);
+            lemma_merge_files_step(Seq::<FileDataSequenceHeader>::empty(), Seq::<FileDataSequenceHeader>::empty(), op);
+            assert(out.fhdrs@ =~= fh_init + merge_files(fa0, fa1, op));
+        }
 //@ after `footer.cas_info_offset = out_offset;`
         proof { nf = out.log@.len() - b0 - 1; }
+//@ before `while let Some(action) =` #2
+        proof {
+            assert(rem_c(*r[0], cas_data_header[0]) =~= ca0); assert(rem_c(*r[1], cas_data_header[1]) =~= ca1);
+        }
 //@ loop 7
             invariant
                 b0 == log0.len(), out.limit@ == lim, lim <= b0 + 0xFFFF_FFFF, out.log@.len() <= lim,
@@ -234,6 +333,16 @@ proof fn lemma_consts()
                 footer.file_info_offset == 48, footer.cas_info_offset == 48 * (1 + nf), file_lookup_data@.len() <= nf,
                 cas_lookup_data@.len() <= u(current_index), chunk_lookup_data@.len() <= u(current_index),
                 footer.stored_bytes <= 0xFFFF_FFFF * u(current_index), footer.stored_bytes_on_disk <= 0xFFFF_FFFF * u(current_index),
+                rd_c(*r[0], fa0, ca0, cas_data_header[0]), rd_c(*r[1], fa1, ca1, cas_data_header[1]), out.fhdrs@ =~= fh_init + merge_files(fa0, fa1, op),
+                /*@C10*/ out.chdrs@ + merge_cas(rem_c(*r[0], cas_data_header[0]), rem_c(*r[1], cas_data_header[1]), op) =~= ch_init + merge_cas(ca0, ca1, op),
+            ensures cas_data_header[0] is None && cas_data_header[1] is None,
+//@ before `let vx_arr2 = [0, 1];`
+            let ghost g0 = out.chdrs@; let ghost sc = rem_c(*r[0], cas_data_header[0]); let ghost sd = rem_c(*r[1], cas_data_header[1]); let ghost cx = action[0]; let ghost cy = action[1];
+            proof {
+                assert(hd(sc) == cas_data_header[0] && hd(sd) == cas_data_header[1]);
+                lemma_merge_cas_step(sc, sd, op);
+                assert(key_table(cas_key(hd(sc)), cas_key(hd(sd)), op) == Some((cx, cy)));
+            }
 //@ loop 8
                 invariant
                     b0 == log0.len(), out.limit@ == lim, lim <= b0 + 0xFFFF_FFFF, out.log@.len() <= lim,
@@ -245,13 +354,38 @@ proof fn lemma_consts()
                     vx_arr2[0] == 0 && vx_arr2[1] == 1, vx_n5 <= 2,
                     vx_n5 == 0 ==> slot_ok(action[0], cas_data_header[0]),
                     vx_n5 <= 1 ==> slot_ok(action[1], cas_data_header[1]),
+                    rd_c(*r[0], fa0, ca0, cas_data_header[0]), rd_c(*r[1], fa1, ca1, cas_data_header[1]), out.fhdrs@ =~= fh_init + merge_files(fa0, fa1, op),
+                    cx == action[0], cy == action[1], !(cx is Merge) && !(cy is Merge),
+                    /*@C10*/ out.chdrs@ =~= g0 + (if vx_n5 >= 1 { emit(cx, hd(sc)) } else { Seq::empty() }) + (if vx_n5 >= 2 { emit(cy, hd(sd)) } else { Seq::empty() }),
+                    rem_c(*r[0], cas_data_header[0]) =~= (if vx_n5 >= 1 { rest(cx, sc) } else { sc }),
+                    rem_c(*r[1], cas_data_header[1]) =~= (if vx_n5 >= 2 { rest(cy, sd) } else { sd }),
+                    g0 + emit(cx, hd(sc)) + emit(cy, hd(sd)) + merge_cas(rest(cx, sc), rest(cy, sd), op) =~= ch_init + merge_cas(ca0, ca1, op),
                 decreases 2 - vx_n5,
+//@ before `match action[i] {` #2
+                let ghost gcur = out.chdrs@; let ghost ci_0 = r[0].ci@; let ghost ci_1 = r[1].ci@; let ghost m_0 = ca0.len() as int; let ghost m_1 = ca1.len() as int;
+//@ after `vx_load_next_r })?;` #5
+                        proof {
+                            if i == 0 { assert(rem_c(*r[0], cas_data_header[0]) =~= ca0.subrange(ci_0 - 1, m_0).drop_first()); }
+                            else { assert(rem_c(*r[1], cas_data_header[1]) =~= ca1.subrange(ci_1 - 1, m_1).drop_first()); }
+                        }
+//@ after `vx_load_next_r })?;` #6
+                        proof {
+                            if i == 0 { assert(rem_c(*r[0], cas_data_header[0]) =~= ca0.subrange(ci_0 - 1, m_0).drop_first()); }
+                            else { assert(rem_c(*r[1], cas_data_header[1]) =~= ca1.subrange(ci_1 - 1, m_1).drop_first()); }
+                        }
 //@ loop 9
                             invariant
                                 b0 == log0.len(), out.limit@ == lim, lim <= b0 + 0xFFFF_FFFF, out.log@.len() <= lim,
                                 nf >= 1, file_part(out.log@, log0, b0, nf), cas_part(out.log@, b0 + 1 + nf, u(current_index) + 1 + j), out.log@.len() == b0 + 1 + nf + u(current_index) + 1 + j,
                                 /*@C10*/ out_offset == 48 * (out.log@.len() - b0),
                                 chunk_lookup_data@.len() <= u(current_index) + j, i < 2,
+                                rd_c(*r[0], fa0, ca0, cas_data_header[0]), rd_c(*r[1], fa1, ca1, cas_data_header[1]), out.fhdrs@ =~= fh_init + merge_files(fa0, fa1, op), out.chdrs@ == gcur.push(*fh), r[0].ci@ == ci_0, r[1].ci@ == ci_1,
+//@ before `out_offset += CASChunkSequenceHeader::bookend().serialize(out)? as u64;`
+        proof {
+            assert(cas_data_header[0] is None && cas_data_header[1] is None);
+            lemma_merge_cas_step(Seq::<CASChunkSequenceHeader>::empty(), Seq::<CASChunkSequenceHeader>::empty(), op);
+            assert(out.chdrs@ =~= ch_init + merge_cas(ca0, ca1, op));
+        }
 //@ after `footer.file_lookup_offset = out_offset;`
         proof { nc = out.log@.len() - b0 - 1 - nf; t1 = b0 + 1 + nf + nc; }
 //@ before `out_offset += (file_lookup_data.len()`
@@ -271,6 +405,7 @@ proof fn lemma_consts()
         }
 //@ loop 10
             invariant
+                out.fhdrs@ =~= fh_init + merge_files(fa0, fa1, op), out.chdrs@ =~= ch_init + merge_cas(ca0, ca1, op),
                 b0 == log0.len(), out.limit@ == lim, lim <= b0 + 0xFFFF_FFFF, out.log@.len() <= lim || vx_n1 == 0,
                 nf >= 1, nc >= 1, file_part(out.log@, log0, b0, nf), cas_part(out.log@, b0 + 1 + nf, nc), t1 == b0 + 1 + nf + nc,
                 vx_n1 <= vx_v1@.len() <= nf, pairs_part(out.log@, t1, vx_n1 as int), out.log@.len() == t1 + 2 * vx_n1,
@@ -278,6 +413,7 @@ proof fn lemma_consts()
             decreases vx_v1@.len() - vx_n1,
 //@ loop 11
             invariant
+                out.fhdrs@ =~= fh_init + merge_files(fa0, fa1, op), out.chdrs@ =~= ch_init + merge_cas(ca0, ca1, op),
                 b0 == log0.len(), out.limit@ == lim, lim <= b0 + 0xFFFF_FFFF, out.log@.len() <= lim || vx_n2 == 0,
                 nf >= 1, nc >= 1, file_part(out.log@, log0, b0, nf), cas_part(out.log@, b0 + 1 + nf, nc), t1 == b0 + 1 + nf + nc,
                 pairs_part(out.log@, t1, footer.file_lookup_num_entry as int), footer.file_lookup_num_entry <= nf,
@@ -286,6 +422,7 @@ proof fn lemma_consts()
             decreases vx_v2@.len() - vx_n2,
 //@ loop 12
             invariant
+                out.fhdrs@ =~= fh_init + merge_files(fa0, fa1, op), out.chdrs@ =~= ch_init + merge_cas(ca0, ca1, op),
                 b0 == log0.len(), out.limit@ == lim, lim <= b0 + 0xFFFF_FFFF, out.log@.len() <= lim || vx_n3 == 0,
                 nf >= 1, nc >= 1, file_part(out.log@, log0, b0, nf), cas_part(out.log@, b0 + 1 + nf, nc), t1 == b0 + 1 + nf + nc,
                 pairs_part(out.log@, t1, footer.file_lookup_num_entry as int), footer.file_lookup_num_entry <= nf,
